@@ -395,8 +395,14 @@ class Engine:
             self.paths -= 1
             return 'infeasible', None
         except Inconclusive as e:
-            self._note_inconclusive(str(e))
-            return 'inconclusive', str(e)
+            import traceback
+            where = ''
+            for fr in reversed(traceback.extract_tb(e.__traceback__)):
+                if '/sx/' not in fr.filename and '/z3/' not in fr.filename:
+                    where = ' @%s:%d' % ('/'.join(fr.filename.split('/')[-2:]), fr.lineno)
+                    break
+            self._note_inconclusive(str(e)[:120] + where)
+            return 'inconclusive', str(e) + where
         except PathTimeout:
             m = None
             try:
@@ -769,6 +775,10 @@ class SymInt:
 
     def __abs__(self):
         return _mkint(z3.If(self.e >= 0, self.e, -self.e))
+
+    def __truediv__(self, o):
+        from .symnum import symint_truediv
+        return symint_truediv(self, o)
 
     def __bool__(self):
         return eng().branch(self.e != 0)
